@@ -5,6 +5,8 @@ import (
 	"fmt"
 	"os"
 	"runtime"
+	"runtime/debug"
+	"strings"
 	"strconv"
 	"sync"
 
@@ -36,7 +38,7 @@ func parallel(n int, fn func(i int)) {
 			defer wg.Done()
 			for i := range ch {
 				if !evid.IsSaturated() {
-					fn(i)
+					guard(i, fn)
 				}
 			}
 		}()
@@ -46,6 +48,42 @@ func parallel(n int, fn func(i int)) {
 	}
 	close(ch)
 	wg.Wait()
+}
+
+// CurrentRun is the run of the in-process check; a panic inside a case is turned
+// into a violation when it was raised inside the library, into a broken-check
+// verdict when it was raised by the harness itself.
+var CurrentRun *evid.Run
+
+func guard(i int, fn func(i int)) {
+	defer func() {
+		p := recover()
+		if p == nil {
+			return
+		}
+		st := string(debug.Stack())
+		// first frame below the panic machinery
+		lib := false
+		lines := strings.Split(st, "\n")
+		for k, l := range lines {
+			if strings.HasPrefix(l, "panic(") || strings.Contains(l, "runtime.") || strings.HasPrefix(l, "\t") || strings.HasPrefix(l, "goroutine ") || strings.Contains(l, "debug.Stack") || strings.Contains(l, "mon.guard") {
+				continue
+			}
+			lib = strings.Contains(l, "berty.tech/go-ipfs-log")
+			_ = k
+			break
+		}
+		if CurrentRun == nil {
+			panic(p)
+		}
+		if lib {
+			CurrentRun.Violate(CurrentRun.Prop+"/library-panic", det("case", i), map[string]any{"case": i, "panic": fmt.Sprint(p), "stack": clipStr(st, 6000)},
+				"the library panicked while running case %d: %v", i, p)
+		} else {
+			CurrentRun.Broken(fmt.Sprintf("harness panic in case %d: %v\n%s", i, p, clipStr(st, 3000)))
+		}
+	}()
+	fn(i)
 }
 
 func histSample(h *hx.History) map[string]any {
